@@ -1679,6 +1679,7 @@ def _custom_nanquantile(
         or axis[0] != len(a.shape) - 1
         or len(a.shape) == 1
         or a.shape[-1] > 1000
+        or a.size == 0
         or q.ndim > 1
         or weights is not None
     ):
@@ -1695,7 +1696,7 @@ def _custom_nanquantile(
         return np.nanquantile(
             a,
             q,
-            axis=axis,
+            axis=tuple(axis),
             method=method,
             keepdims=keepdims,
             **kwargs,
